@@ -234,3 +234,19 @@ package statesync
 //@   assigns nothing
 //@ extern light.Client.ChainID
 //@   assigns nothing
+
+// ---- C17: the state sync reactor acts on a peer's message only after validateMsg accepted that very message ----
+//@ ghost var ssValidMsg int
+//@ func validateMsg
+//@   trusted
+//@   assigns ssValidMsg
+//@   sets ssValidMsg = ite(result == nil, payload(pb), 0) when true
+//@ func Reactor.recentSnapshots
+//@   trusted
+//@   assigns nothing
+//@ func Reactor.ReceiveEnvelope
+//@   atcall syncer.AddSnapshot valid: ssValidMsg == payload(e.Message)
+//@   atcall syncer.AddChunk valid: ssValidMsg == payload(e.Message)
+//@   atcall AppConnSnapshot.LoadSnapshotChunkSync valid: ssValidMsg == payload(e.Message)
+//@   atcall Reactor.recentSnapshots valid: ssValidMsg == payload(e.Message)
+//@   loop 1 invariant t: true
